@@ -240,13 +240,20 @@ pub enum Fault {
     /// classification, but the source carries on afterwards
     ErrEof,
     Eof,
+    /// any other `std::io::ErrorKind` (index into `OTHER_KINDS`); used in single-deviation schedules
+    Kind(u8),
 }
+pub const OTHER_KINDS: [std::io::ErrorKind; 16] = {
+    use std::io::ErrorKind::*;
+    [NotFound, PermissionDenied, ConnectionRefused, ConnectionReset, ConnectionAborted, NotConnected, AddrInUse, AddrNotAvailable, AlreadyExists, InvalidInput, InvalidData, WriteZero, Unsupported, OutOfMemory, BrokenPipe, TimedOut]
+};
 impl Fault {
     const ALL: [Fault; 8] = [Fault::WouldBlock, Fault::Interrupted, Fault::Other, Fault::BrokenPipe, Fault::TimedOut, Fault::IntrBurst, Fault::ErrEof, Fault::Eof];
     /// what an `embedded_hal::serial::Read` can answer besides a byte
     const EH: [Fault; 2] = [Fault::WouldBlock, Fault::Other];
     fn token(self) -> &'static str {
         match self {
+            Fault::Kind(k) => ["NotFound", "PermissionDenied", "ConnectionRefused", "ConnectionReset", "ConnectionAborted", "NotConnected", "AddrInUse", "AddrNotAvailable", "AlreadyExists", "InvalidInput", "InvalidData", "WriteZero", "Unsupported", "OutOfMemory", "BrokenPipeK", "TimedOutK"][k as usize % 16],
             Fault::WouldBlock => "WouldBlock",
             Fault::Interrupted => "Interrupted",
             Fault::Other => "Other",
@@ -258,7 +265,7 @@ impl Fault {
         }
     }
     fn parse(s: &str) -> Option<Fault> {
-        Fault::ALL.iter().copied().find(|f| f.token() == s)
+        Fault::ALL.iter().copied().chain((0..16u8).map(Fault::Kind)).find(|f| f.token() == s)
     }
 }
 /// Choice-driven `io::Read`: call number c of `read` deviates if the schedule says so,
@@ -294,6 +301,7 @@ impl<'a> std::io::Read for SchedRead<'a> {
                     return Err(Error::new(ErrorKind::Interrupted, "intr"));
                 }
                 Fault::ErrEof => return Err(Error::new(ErrorKind::UnexpectedEof, "eof")),
+                Fault::Kind(k) => return Err(Error::new(OTHER_KINDS[*k as usize % 16], "kind")),
                 Fault::WouldBlock => return Err(Error::new(ErrorKind::WouldBlock, "wb")),
                 Fault::Interrupted => return Err(Error::new(ErrorKind::Interrupted, "intr")),
                 Fault::Other => return Err(Error::new(ErrorKind::Other, "other")),
@@ -522,7 +530,7 @@ fn drive_ref(stream: &[u8], sched: &[(usize, Fault)], drv: Driver, max_calls: us
                     p = 0;
                     break if n == 0 && is_next { None } else { Some(Ev::Io(IoK::Eof, n)) };
                 }
-                Some(Fault::Other) | Some(Fault::BrokenPipe) | Some(Fault::TimedOut) => {
+                Some(Fault::Other) | Some(Fault::BrokenPipe) | Some(Fault::TimedOut) | Some(Fault::Kind(_)) => {
                     let n = seg.unacc[p];
                     seg_from += p;
                     seg = segment(&stream[seg_from..]);
@@ -688,6 +696,12 @@ pub fn run_c11(tier: Tier) -> ! {
             if k == 0 {
                 c11_case(s, &[], drv, false, &mut out, &mut c);
                 c11_case(s, &[], drv, true, &mut out, &mut c);
+                // every other std::io::ErrorKind, once, at every position
+                for pos in 0..s.len() + 2 {
+                    for kk in 0..16u8 {
+                        c11_case(s, &[(pos, Fault::Kind(kk))], drv, false, &mut out, &mut c);
+                    }
+                }
             } else {
                 for fl in Fault::ALL {
                     // remaining k-1 deviations after `first`
@@ -730,7 +744,7 @@ pub fn run_c11(tier: Tier) -> ! {
     let cov = J::obj()
         .set("evaluations", n)
         .set("distinct_nontrivial", counts.get("schedules in which a fault became visible"))
-        .set("rule", "choice points = every call of io::Read::read made by the reader; default answer = next byte (Ok(0) at the end, persistently); deviations = WouldBlock, Interrupted, a burst of 300 Interrupted, Other, BrokenPipe, TimedOut, premature persistent end of input (io::Read source) and WouldBlock, Other (embedded-hal serial source, which has no end of input); every placement of up to k deviations (same position repeated included) on each stream, for the drivers next / read / next_nb / read_nb, run to completion and compared call by call with the reference reader; non-trivial = schedules in which a fault became visible or cost pending bytes")
+        .set("rule", "choice points = every call of io::Read::read made by the reader; default answer = next byte (Ok(0) at the end, persistently); deviations = WouldBlock, Interrupted, a burst of 300 Interrupted, Other, BrokenPipe, TimedOut, Err(UnexpectedEof) (and, in single-deviation schedules, each of 16 further std::io::ErrorKind values), premature persistent end of input (io::Read source) and WouldBlock, Other (embedded-hal serial source, which has no end of input); every placement of up to k deviations (same position repeated included) on each stream, for the drivers next / read / next_nb / read_nb, run to completion and compared call by call with the reference reader; non-trivial = schedules in which a fault became visible or cost pending bytes")
         .set("samples", vec!["stream 1b1b1b1b0101010112340000 1b1b1b1b1a02.... driver next schedule [3:WouldBlock,9:Other]", "stream 55 1b + frame(000000) + 1b1b01 driver read_nb schedule [0:Interrupted,1:Interrupted]"])
         .set("states", n)
         .set("transitions", n)
